@@ -114,6 +114,12 @@ func (sc *simServerConn) respond(s *simnet.Server) {
 			sc.conn.Deliver(e.B, nil)
 		case r.body == "CUT":
 			sc.conn.FailReads(errors.New("connection reset by peer"))
+		case r.body == "EXCCUT":
+			// half of an exception packet, then the transport dies
+			e := &ref.Enc{NoMap: true}
+			ref.EncodeExceptionChain(e, []ref.Exception{{Code: 241, Name: "DB::Exception", Message: "Memory limit exceeded"}})
+			sc.conn.Deliver(e.B[:len(e.B)/2], nil)
+			sc.conn.FailReads(errors.New("connection reset by peer"))
 		case r.body == "HANG":
 			sc.mu.Lock()
 			sc.inflight++ // never answered: the caller cancels, which closes the connection
@@ -288,7 +294,7 @@ func runC11(rt *rapid.T, st *stats.Collector) {
 		if h.dead {
 			rt.Skip("dead handle")
 		}
-		kind := rapid.SampledFrom([]string{"OK", "OK", "EXC", "CUT", "HANG", "PING"}).Draw(rt, "do-kind")
+		kind := rapid.SampledFrom([]string{"OK", "OK", "EXC", "CUT", "EXCCUT", "HANG", "PING"}).Draw(rt, "do-kind")
 		ctx := context.Background()
 		var err error
 		switch kind {
@@ -301,7 +307,7 @@ func runC11(rt *rapid.T, st *stats.Collector) {
 			h.dead = true
 		default:
 			err = h.c.Do(ctx, ch.Query{Body: kind})
-			if kind == "CUT" {
+			if kind == "CUT" || kind == "EXCCUT" {
 				h.dead = true
 			}
 		}
@@ -309,7 +315,7 @@ func runC11(rt *rapid.T, st *stats.Collector) {
 		if (kind == "OK" || kind == "PING") && err != nil {
 			rt.Fatalf("h%d %s failed: %v\nhistory: %s", h.id, kind, err, history())
 		}
-		if (kind == "EXC" || kind == "CUT" || kind == "HANG") && err == nil {
+		if (kind == "EXC" || kind == "CUT" || kind == "EXCCUT" || kind == "HANG") && err == nil {
 			rt.Fatalf("h%d %s returned nil\nhistory: %s", h.id, kind, history())
 		}
 	}
@@ -362,7 +368,7 @@ func runC11(rt *rapid.T, st *stats.Collector) {
 			if len(live()) >= maxConns {
 				rt.Skip("would block")
 			}
-			kind := rapid.SampledFrom([]string{"OK", "EXC", "CUT", "PING"}).Draw(rt, "pooldo-kind")
+			kind := rapid.SampledFrom([]string{"OK", "EXC", "CUT", "EXCCUT", "PING"}).Draw(rt, "pooldo-kind")
 			var err error
 			if kind == "PING" {
 				err = p.Ping(context.Background())
@@ -463,7 +469,7 @@ func TestC12PoolRaces(t *testing.T) {
 		workers := rapid.IntRange(2, 8).Draw(rt, "workers")
 		maxConns := rapid.IntRange(1, 4).Draw(rt, "max-conns")
 		iters := rapid.IntRange(1, 6).Draw(rt, "iterations")
-		kinds := rapid.SliceOfN(rapid.SampledFrom([]string{"OK", "OK", "EXC", "CUT", "PING", "HOLD"}), 16, 16).Draw(rt, "kinds")
+		kinds := rapid.SliceOfN(rapid.SampledFrom([]string{"OK", "OK", "EXC", "CUT", "EXCCUT", "PING", "HOLD"}), 16, 16).Draw(rt, "kinds")
 		rapid.SyncTest(rt, func(rt *rapid.T) {
 			f := &farm{}
 			p, err := chpool.New(context.Background(), chpool.Options{
